@@ -156,6 +156,63 @@ func (k c04) Run(c *rt.Ctx) {
 			c.Rec.Inc("leaf_comparisons")
 		}
 	}
+	if idx%40 == 11 {
+		// re-association chains over a FLOAT-valued row leaf whose integer constants, combined among
+		// themselves, leave int64: as written every step is float arithmetic and nothing overflows, so
+		// a rewrite that multiplies or adds the constants as integers changes the value (found on the
+		// unchanged tree through a sub-agent's remark in wave 15; repaired, section 6.1). The integer
+		// leaf beside it wraps in both forms and must keep agreeing.
+		F, I := func() *gen.Node { return gen.Call("float", gen.Value()) }, gen.Int
+		mul := func(x *gen.Node, ks ...*gen.Node) *gen.Node {
+			for _, k := range ks {
+				x = gen.Bin("*", x, k)
+			}
+			return x
+		}
+		for _, t := range []*gen.Node{
+			mul(F(), I(4294967296), I(4294967296)),
+			mul(F(), I(3037000500), I(3037000500)),
+			mul(F(), I(65536), I(65536), I(65536), I(65536)),
+			mul(F(), gen.Bin("*", I(4294967296), I(2)), I(2147483648)),
+			mul(F(), I(2147483648), gen.Bin("*", I(4294967296), I(2))),
+			gen.Bin("+", gen.Bin("+", F(), I(9223372036854775807)), I(1)),
+			gen.Bin("+", gen.Bin("+", F(), I(4611686018427387904)), I(4611686018427387904)),
+			gen.Bin(">", mul(F(), I(4294967296), I(4294967296)), gen.Float("1.0")),
+			mul(gen.Call("int", gen.Value()), I(4294967296), I(4294967296)),
+			mul(gen.Call("strlen", gen.Key()), I(3037000500), I(3037000500)),
+		} {
+			k.judge(c, t, "chain", false)
+			c.Rec.Inc("float_leaf_chains_whose_integer_constants_leave_int64")
+		}
+	}
+	if idx%40 == 17 {
+		// wave 15: text constants of 10-16 bytes whose concatenation passes 16 bytes (C04-aa: a fixed
+		// 16-byte buffer on the row path, which is the path constant folding takes), and ordering
+		// comparisons of integer constants that differ only beyond 2^53 (C04-ab: widened to float64)
+		S, I := gen.Str, gen.Int
+		for _, t := range []*gen.Node{
+			gen.Bin("+", S("abcdefghij"), S("klmnopqrst")),
+			gen.Bin("=", gen.Bin("+", S("abcdefghij"), S("klmnopqrst")), S("abcdefghijklmnopqrst")),
+			gen.Bin("+", gen.Bin("+", gen.Key(), S("0123456789abcdef")), S("0123456789abcdef")),
+			gen.Bin("+", gen.Bin("+", S("0123456789abcde"), S("xy")), gen.Value()),
+			gen.Bin("=", gen.Bin("+", gen.Key(), S("0123456789abcdef")), gen.Bin("+", gen.Key(), S("0123456789abcde"))),
+			gen.Call("upper", gen.Bin("+", S("abcdefghijklmnop"), S("q"))),
+		} {
+			k.judge(c, t, "textchain", true)
+			c.Rec.Inc("text_constants_passing_16_bytes")
+		}
+		big := []int64{9007199254740992, 9007199254740993, 9007199254740994, -9007199254740993, 9223372036854775806, 9223372036854775807}
+		n := 0
+		for _, a := range big {
+			for _, b := range big {
+				op := cmpNOps[n%6]
+				n++
+				k.judge(c, gen.Bin(op, I(a), I(b)), "constbin", true)
+				k.judge(c, gen.Bin(op, gen.Bin("+", I(a), I(1)), I(b)), "constbin", false)
+				c.Rec.Inc("integer_constants_beyond_2^53_compared")
+			}
+		}
+	}
 	nd1 := len(c04Depth1)/c04Block + 1
 	if idx < nd1 {
 		for i := idx * c04Block; i < (idx+1)*c04Block && i < len(c04Depth1); i++ {
